@@ -174,6 +174,20 @@ impl Hash {
         }
     }
 }
+impl<'a> PartialEq<&MVec<u8>> for HashBytes<'a> {
+    fn eq(&self, other: &&MVec<u8>) -> bool {
+        if !self.1 || other.len() != 32 {
+            return false;
+        }
+        let mut same = true;
+        let mut i = 0;
+        while i < 32 {
+            same = same && other.get(i) == Some(&self.0[i]);
+            i += 1;
+        }
+        same
+    }
+}
 impl<'a> HashBytes<'a> {
     pub fn to_vec(&self) -> MVec<u8> {
         let mut v = MVec::new();
@@ -195,17 +209,23 @@ impl<'a> HashBytes<'a> {
 #[derive(Debug, Clone, PartialEq, Eq)]
 pub struct ExtendedHeader {
     pub height: u64,
+    /// identifies the header's hash (hash = 32 bytes all equal to `hash_id`)
+    pub hash_id: u8,
 }
 
 impl ExtendedHeader {
     pub fn height(&self) -> u64 {
         self.height
     }
+    pub fn hash(&self) -> Hash {
+        Hash::Sha256([self.hash_id; 32])
+    }
     /// Stands in for `ExtendedHeader::decode_and_validate`: a body is a valid header iff it
     /// holds exactly one encoded-header unit.
     pub fn decode_and_validate(body: &MVec<EncodedHeader>) -> Result<ExtendedHeader, ()> {
         match body.get(0) {
-            Some(e) => Ok(ExtendedHeader { height: e.height }),
+            Some(e) if e.valid => Ok(ExtendedHeader { height: e.height, hash_id: e.hash_id }),
+            Some(_) => Err(()),
             None => Err(()),
         }
     }
@@ -215,7 +235,7 @@ impl ExtendedHeader {
     /// and no checked property looks inside a body.
     pub fn encode_vec(self) -> MVec<EncodedHeader> {
         let mut v = MVec::new();
-        v.push(EncodedHeader { height: self.height });
+        v.push(EncodedHeader { height: self.height, hash_id: self.hash_id, valid: true });
         v
     }
 }
@@ -223,6 +243,9 @@ impl ExtendedHeader {
 #[derive(Debug, Clone, Copy, PartialEq, Eq)]
 pub struct EncodedHeader {
     pub height: u64,
+    pub hash_id: u8,
+    /// whether `decode_and_validate` accepts it (free in the client-side harnesses)
+    pub valid: bool,
 }
 
 #[derive(Debug)]
@@ -283,7 +306,7 @@ impl WindowStore {
 impl Store for WindowStore {
     async fn get_head(&self) -> Result<ExtendedHeader, StoreError> {
         match self.head() {
-            Some(h) => Ok(ExtendedHeader { height: h }),
+            Some(h) => Ok(ExtendedHeader { height: h, hash_id: 0 }),
             None => Err(StoreError::NotFound),
         }
     }
@@ -301,14 +324,14 @@ impl Store for WindowStore {
             Hash::None => false,
         };
         if same && self.hash_hit != 0 {
-            Ok(ExtendedHeader { height: self.hash_hit })
+            Ok(ExtendedHeader { height: self.hash_hit, hash_id: 0 })
         } else {
             Err(StoreError::NotFound)
         }
     }
     async fn get_by_height(&self, height: u64) -> Result<ExtendedHeader, StoreError> {
         if self.has(height) {
-            Ok(ExtendedHeader { height })
+            Ok(ExtendedHeader { height, hash_id: 0 })
         } else {
             Err(StoreError::NotFound)
         }
@@ -332,7 +355,7 @@ impl Store for WindowStore {
             if !self.has(h) {
                 return Err(StoreError::NotFound);
             }
-            out.push(ExtendedHeader { height: h });
+            out.push(ExtendedHeader { height: h, hash_id: 0 });
             if h == e {
                 return Ok(out);
             }
@@ -435,6 +458,38 @@ impl<T: Elem> MVec<T> {
     }
     pub fn iter(&self) -> MVecIter<'_, T> {
         MVecIter { v: self, pos: 0 }
+    }
+    /// `sort_unstable_by_key`: selection sort into a fresh store (at most `CAP` elements)
+    pub fn sort_unstable_by_key<K: Ord, F: FnMut(&T) -> K>(&mut self, mut f: F)
+    where
+        T: Clone,
+    {
+        let mut out = T::new_store();
+        let mut used = [false; 64];
+        let mut p = 0;
+        while p < T::CAP {
+            if p < self.len {
+                let mut best: Option<usize> = None;
+                let mut i = 0;
+                while i < T::CAP {
+                    if i < self.len && !used[i] {
+                        let better = match best {
+                            None => true,
+                            Some(b) => f(T::at(&self.store, i).unwrap()) < f(T::at(&self.store, b).unwrap()),
+                        };
+                        if better {
+                            best = Some(i);
+                        }
+                    }
+                    i += 1;
+                }
+                let b = best.unwrap();
+                used[b] = true;
+                T::put(&mut out, p, T::at(&self.store, b).unwrap().clone());
+            }
+            p += 1;
+        }
+        self.store = out;
     }
 }
 
